@@ -1,19 +1,23 @@
 /-
   Props/C17.lean — watermark progress (C17) at the block input.
 
-  Full-strength statement of the property (NOT provable for the unchanged code, see
-  `frontier_progress_counterexample`):
+  Property: whenever the minimum, over the upstream replicas that have not yet ended their
+  iteration, of their latest watermark increases, the block's operators observe a watermark equal to
+  the new minimum before any later element.
 
-    for every contract-respecting arrival (of any kind) after which the specification frontier
-    (`specFront`: min over the replicas that have not ended the iteration of their latest
-    watermark) has increased to `f'`, `Start` emits `Watermark(f')` before any later element.
-
-  The code discards the value returned by `watermark_frontier.update(sender, Timestamp::MAX)` when a
-  replica ends its iteration (src/operator/start/mod.rs:249-256), so an increase *caused by a replica
-  ending* is not announced (finding F5). What is proved: the code's frontier always EQUALS the
-  specification frontier (so an ended replica never holds the others back and the next watermark
-  arrival announces the right value), and every increase caused by a *watermark* arrival is
-  announced immediately — and nothing is announced otherwise.
+  What the code does after the fix of finding F5 (/repo, `fix: Start announces a frontier increase
+  caused by a replica ending its iteration`): an increase caused by a *watermark* arrival is
+  announced immediately; an increase caused by a *replica ending its iteration* is remembered
+  (`pending_watermark`) and announced right before the next data element, or when the block goes idle
+  (receive timeout → `FlushBatch`), unless a later watermark arrival supersedes it with a larger
+  announcement. (An eager announcement at the replica's `FlushAndRestart` would contradict the
+  repository's unit test `test_single_watermark`.) The theorems below state exactly this:
+  `frontier_told_is_spec` (invariant: told-or-pending = specification frontier in every reachable
+  state), `frontier_progress` (every data element is observed with the current minimum),
+  `frontier_progress_idle` (so is every idle flush), `frontier_progress_watermark` (watermark arrivals
+  announce immediately, exactly the new minimum, nothing otherwise). Not covered by an announcement:
+  the interval between a replica's end and the next data element / timeout / watermark of the block —
+  in batch modes without timeout (`Fixed`, `Single`) that interval ends only with the next arrival.
 -/
 import NoirVerif.Lemmas.Start
 import NoirVerif.Props.C06
@@ -83,7 +87,7 @@ theorem frontier_told_is_spec {s : State} {sp : InSt} {outW : Option Int} (rel :
   | none => rw [hp] at he; simp only at he ⊢; rw [← he]; exact hf
   | some p => rw [hp] at he; simp only at he ⊢; rw [← he]; exact hf
 
-/-- **C17 (progress, full strength).** For every contract-respecting arrival of a data element in
+/-- **C17 (progress at data elements).** For every contract-respecting arrival of a data element in
     a reachable state, the output is the element itself, preceded by a watermark exactly when an
     announcement was pending, and the last watermark observed by the block's operators when they
     see the element equals the current minimum over the active replicas — whatever caused the last
@@ -139,6 +143,24 @@ theorem frontier_progress {s : State} {sp sp' : InSt} {outW : Option Int} {r : N
   | far => simp [Elem.isData] at hd
   | term => simp [Elem.isData] at hd
   | flushBatch => simp [Elem.isData] at hd
+
+/-- **C17 (progress when the block goes idle).** When the receive times out in a reachable state,
+    the block first emits the pending announcement (if any) and then the `FlushBatch`; at that
+    `FlushBatch` the last watermark observed equals the current minimum over the active replicas. -/
+theorem frontier_progress_idle {s : State} {sp : InSt} {outW : Option Int}
+    (rel : Rel s sp outW) (hT : s.missingTerm ≠ 0) :
+    ∃ pre, (step s (Arrival.timeout : Arrival α)).2 = pre ++ [.flushBatch] ∧
+      (pre = [] ∨ ∃ p, pre = [.wm p]) ∧ wmAfter outW pre = specFront sp := by
+  have htold := frontier_told_is_spec rel
+  unfold told at htold
+  simp only [step, hT, if_false]
+  cases hp : s.pending with
+  | none =>
+    rw [hp] at htold
+    exact ⟨[], by simp, Or.inl rfl, by simpa [wmAfter] using htold⟩
+  | some p =>
+    rw [hp] at htold
+    exact ⟨[.wm p], by simp, Or.inr ⟨p, rfl⟩, by simpa [wmAfter] using htold⟩
 
 /-- **C17 (increases caused by watermarks are announced immediately).** For a contract-respecting
     watermark arrival: if the specification frontier changes, `Start` emits exactly one watermark,
